@@ -167,6 +167,7 @@ pub fn run_cgr_files(kmer: bool, tier: &str, rng: &mut Rng, model: &Model, rep: 
     let mut run_one = |c: &CgrFileCase, section: &str, rep: &mut Report| {
         counter += 1;
         let uid = format!("cg{}_{}", if kmer { 12 } else { 11 }, counter);
+        progress(&c.req());
         rep.evaluations += 1;
         rep.count(&format!("{}/threads:{}", section, c.threads), 1);
         rep.count(&format!("{}/limit:{}", section, if c.mem < 100 { "tiny" } else if c.mem < 100000 { "small" } else { "large" }), 1);
@@ -236,5 +237,12 @@ pub fn run_cgr_files(kmer: bool, tier: &str, rng: &mut Rng, model: &Model, rep: 
             container,
         };
         run_one(&c, "files", rep);
+    }
+    // many records in one batch with several threads
+    {
+        let n = rng.range(2200, 3000) as usize;
+        let recs: Vec<Vec<u8>> = (0..n).map(|i| gen::clean_seq(rng, 1 + (i % 9), gen::Flavor::Uniform)).collect();
+        let c = CgrFileCase { recs, k: if kmer { Some(2) } else { None }, size: 16, norm: true, threads: 8, mem: 4 << 30, container: "fa".into() };
+        run_one(&c, "many-records", rep);
     }
 }
